@@ -20,6 +20,33 @@ from harness.core import run_driver
 import FlowCal.io  # noqa
 
 
+def one_step(objs, how, o, protos):
+    lab = detail = None
+    src = objs[o - 1]
+    if how.startswith('mutate_'):
+        hr.mutate(src, how[7:])
+    elif how == 'readonly':
+        before = [hr.fingerprint(x) for x in objs]
+        a1 = hr.readonly_calls(src)
+        a2 = hr.readonly_calls(src)
+        if [hr.fingerprint(x) for x in objs] != before:
+            lab, detail = 'readonly-changed-store', how
+        elif a1 != a2:
+            lab, detail = 'query-answer-depends-on-earlier-query', how
+    else:
+        for proto in (protos if how == 'pickle' else [2]):
+            new = hr.derive(src, how, proto)
+            if how in ('copy', 'copycopy', 'deepcopy', 'view', 'pickle'):
+                f1, f2 = hr.fingerprint(src), hr.fingerprint(new)
+                if f1 != f2:
+                    bad = [k for k in f1 if f1[k] != f2[k]]
+                    lab, detail = 'dup-not-equal/%s/%s' % (how, '+'.join(bad)), {'proto': proto}
+                if type(new) is not type(src):
+                    lab, detail = 'dup-class/%s' % how, type(new).__name__
+        objs.append(new)
+    return lab, detail
+
+
 def replay_state(chk, store, st, pid, idx, protos):
     hist = st['hist']
     base = store.load()
@@ -28,28 +55,10 @@ def replay_state(chk, store, st, pid, idx, protos):
     lab = None
     detail = None
     for step, (how, o) in enumerate(hist):
-        src = objs[o - 1]
-        if how.startswith('mutate_'):
-            hr.mutate(src, how[7:])
-        elif how == 'readonly':
-            before = [hr.fingerprint(x) for x in objs]
-            a1 = hr.readonly_calls(src)
-            a2 = hr.readonly_calls(src)
-            if [hr.fingerprint(x) for x in objs] != before:
-                lab, detail = 'readonly-changed-store', how
-            elif a1 != a2:
-                lab, detail = 'query-answer-depends-on-earlier-query', how
-        else:
-            for proto in (protos if how == 'pickle' else [2]):
-                new = hr.derive(src, how, proto)
-                if how in ('copy', 'copycopy', 'deepcopy', 'view', 'pickle'):
-                    f1, f2 = hr.fingerprint(src), hr.fingerprint(new)
-                    if f1 != f2:
-                        bad = [k for k in f1 if f1[k] != f2[k]]
-                        lab, detail = 'dup-not-equal/%s/%s' % (how, '+'.join(bad)), {'proto': proto}
-                    if type(new) is not type(src):
-                        lab, detail = 'dup-class/%s' % how, type(new).__name__
-            objs.append(new)
+        try:
+            lab, detail = one_step(objs, how, o, protos)
+        except Exception as e:  # noqa  - the library raised inside an operation of the history
+            lab, detail = 'operation-raised/%s/%s' % (how, type(e).__name__), str(e)[:120]
         if lab:
             break
     if lab is None:
